@@ -8,7 +8,7 @@
    probes, Serve, the peer with any script, the deadline timer) and over every
    schedule, i.e. every interleaving of their operations. *)
 From XV Require Import lib.Bytes lib.Lts gen.SessClose C10.Model C10.Inv C10.Proofs C10.Closers
-  C10.Transmit C10.InLock C10.StateLock C10.Progress C10.Refute C10.Tables C10.Spec.
+  C10.Transmit C10.InLock C10.StateLock C10.Progress C10.Deadline C10.Refute C10.Tables C10.Spec.
 
 (* Clause 1.  In every reachable state the wire holds at most one closing tag;
    it holds exactly one precisely when the OutputStreamClosed bit is set and the
@@ -93,6 +93,43 @@ Theorem C10_serve_returns : forall ds ks tr s i,
 Proof. exact serve_returns. Qed.
 Print Assumptions C10_serve_returns.
 
+(* Clause 3b'.  The close deadline is state that every SetCloseDeadline call
+   replaces — any number of calls, each with a later time, a time already
+   passed or the zero time, in any order with everything else; the deadline
+   asked for by any of the calls may pass at any moment (OFire j).  In every
+   reachable state in which the deadline IN FORCE has not passed (i_passed)
+   Serve's read does not time out and its context test does not report a
+   deadline, and the peer's closing tag, once read, sends Serve to its shutdown
+   with nil ... *)
+Theorem C10_deadline_only_in_force : forall ds ks tr s,
+  run step (init ds ks) tr = Some s -> i_passed (s_i s) = false ->
+  i_rdexp (s_i s) = false /\ ~ (i_done (s_i s) = true /\ i_err (s_i s) = ECtxDeadline) /\
+  (forall i k q, a_code (s_a s i) = OServeRead :: k -> i_q (s_i s) = PClose :: q ->
+     exists s', run step s [i; i; i] = Some s' /\ a_code (s_a s' i) = shutdown_code /\
+                a_e (s_a s' i) = ENil /\ a_cause (s_a s' i) = CPeerClose).
+Proof. exact deadline_only_in_force. Qed.
+Print Assumptions C10_deadline_only_in_force.
+
+(* ... where "has passed" is raised only by the passing of the deadline of the
+   call in force while it is still pending, or by a call whose time has already
+   passed; every call makes itself the one in force and resets the flag to what
+   it alone says; and a deadline that is not (or no longer) in force passes
+   without any effect on the session. *)
+Theorem C10_deadline_replaced : 
+  (forall s i s', step s i = Some s' -> i_passed (s_i s) = false -> i_passed (s_i s') = true ->
+     exists k, (a_code (s_a s i) = OSetDeadline DPast :: k) \/
+               (exists j, a_code (s_a s i) = OFire j :: k /\ i_gen (s_i s) = Some j /\ i_armed (s_i s) = true)) /\
+  (forall s i m k s', a_code (s_a s i) = OSetDeadline m :: k -> step s i = Some s' ->
+     i_gen (s_i s') = Some i /\
+     i_passed (s_i s') = (match m with DPast => true | _ => false end) /\
+     i_armed (s_i s') = (match m with DFuture => true | _ => false end) /\
+     i_rdexp (s_i s') = (match m with DPast => i_dlsup (s_i s) | _ => false end) /\
+     i_done (s_i s') = (match m with DPast => true | _ => false end)) /\
+  (forall s i j k s', a_code (s_a s i) = OFire j :: k -> i_gen (s_i s) <> Some j -> step s i = Some s' ->
+     s_i s' = s_i s /\ s_o s' = s_o s).
+Proof. exact (conj passed_only_in_force (conj setdeadline_replaces stale_deadline_passes_unnoticed)). Qed.
+Print Assumptions C10_deadline_replaced.
+
 (* Clause 3c.  After the input stream is marked closed a read fails with the
    input-closed error. *)
 Theorem C10_read_after_input_closed : forall s i k s',
@@ -166,7 +203,9 @@ Print Assumptions C10_stream_error_flushed_partial.
    from the source on this run: who takes the output lock (each is modelled),
    every one tests the closed bit after taking it, only closeSession /
    closeInputStream set the bits, Serve's deferred shutdown calls
-   closeInputStream then Close, SetCloseDeadline swaps the context under a lock;
+   closeInputStream then Close, SetCloseDeadline swaps the context under a lock,
+   builds the new one from context.Background() (never from the one it
+   replaces), cancels the previous one and takes the zero time for no deadline;
    and for WebSocket framing: Send records the opening element (so that Close
    writes <close/>), the negotiator records the framing on the session and the
    stream reader takes the peer's <close/> for the end of the stream — which is
@@ -182,7 +221,8 @@ Theorem C10_source_tables :
    sc_sets_input_closed = [str "Session.closeInputStream"] /\
    sc_closesession_callers = map str ["Session.Close"; "Session.sendError"]%string) /\
   sc_serve_defer_calls = map str ["closeInputStream"; "Close"]%string /\
-  sc_setclosedeadline_locked = true /\
+  (sc_setclosedeadline_locked = true /\ sc_setclosedeadline_fresh_context = true /\
+   sc_setclosedeadline_cancels_previous = true /\ sc_setclosedeadline_zero_is_no_deadline = true) /\
   (sc_send_records_opening_element = true /\ sc_negotiator_records_ws = true /\
    sc_reader_ws_close_is_eof = true) /\
   sc_statelock_blocking_calls = [].
